@@ -127,6 +127,7 @@ func (fv *FuncVerifier) takeEdge(st *State, from, to *ssa.BasicBlock) bool {
 	}
 	// loop entry
 	st.prev = from
+	fv.promoteLocalObjects(st)
 	env := fv.invEnv(st, li)
 	if li.lc != nil {
 		basePC := st.pc
@@ -164,6 +165,42 @@ func (fv *FuncVerifier) takeEdge(st *State, from, to *ssa.BasicBlock) bool {
 
 var edgeCover = os.Getenv("GOVC_EDGE_COVER") != ""
 
+// promoteLocalObjects: objects allocated by this activation that are only known through
+// pointers in local variables live in those variables' cells, not in the heap arrays. A loop's
+// modification summary is per heap field: a store "p.f = v" through such a pointer would be
+// summarised as a write to the heap field while the executor updates the cell - the loop havoc
+// would then leave the object untouched and the loop body would be checked for the first
+// iteration only. Before a loop is entered every such object therefore becomes a heap object.
+func (fv *FuncVerifier) promoteLocalObjects(st *State) {
+	for c, v := range st.cells {
+		if v.Place != nil && v.Place.Kind == PLocal && v.Clo == nil {
+			if _, isObj := v.Typ.Underlying().(*types.Pointer); isObj {
+				func() {
+					defer func() { _ = recover() }() // cells the promotion cannot handle stay as they are
+					st.cells[c] = st.promote(v)
+				}()
+			}
+		}
+	}
+	for r, v := range st.regs {
+		if v.Place != nil && v.Place.Kind == PLocal && v.Clo == nil {
+			if _, isObj := v.Typ.Underlying().(*types.Pointer); isObj {
+				if _, isAlloc := r.(*ssa.Alloc); isAlloc {
+					// the register of an allocation is that object's own address, not a pointer to
+					// it held somewhere else: stores through it are summarised as stores to the cell
+					if at, ok := v.Place.Cell.(*ssa.Alloc); ok && at == r {
+						continue
+					}
+				}
+				func() {
+					defer func() { _ = recover() }()
+					st.regs[r] = st.promote(v)
+				}()
+			}
+		}
+	}
+}
+
 func (fv *FuncVerifier) havocLoop(st *State, li *loopInfo) {
 	if li.havocAll {
 		st.havocAll()
@@ -177,9 +214,24 @@ func (fv *FuncVerifier) havocLoop(st *State, li *loopInfo) {
 		}
 		st.havocAllKeepLocks()
 	} else {
+		var ef *entryFrame
+		if fv.fc.LoopFrames && inlineDepth == 0 {
+			if li.frame == nil {
+				li.frame = fv.loopFrameFor(li)
+			}
+			if li.frame.ok {
+				if allowed, ok := fv.entryFrameTerms(st, li.frame); ok {
+					ef = &entryFrame{prevEpoch: st.epoch, prevPref: copyIntMap(st.prefEp), hwm: st.hwm, allowed: allowed}
+					fv.enc.assumedUsed["loop "+fmt.Sprint(li.ord)+" of "+shortName(fv.fn.String())+": entry-relative frame (the loop writes only objects it names or allocates; syntactic analysis, loopframe.go)"] = true
+				}
+			}
+		}
 		for p := range li.prefixes {
 			ep := st.havocPrefix(p)
 			fv.enc.loopEpochs[ep] = true
+			if ef != nil {
+				fv.enc.entryFrames[ep] = ef
+			}
 		}
 		if li.allocs {
 			nh := fv.enc.fresh("hwm", SInt)
